@@ -125,13 +125,24 @@ CLAIMS['C14'] = dict(
           'kept as c14_x_nets_* experiments only.'),
     design='§4 C14')
 
+CLAIMS['C16'] = dict(
+    text=('Partial, and relative to a validated model of rust_decimal: LefImporter::import_dist on every decimal m x 10^-s with |m| <= 2^20 and '
+          's = 0, 2 (thorough: 1, 3, 4), and |m| <= 2^8 at s = 5 (thorough 6) where fractions of a raw unit occur, returns m x 10^(4-s) raw units when that is a whole number — independent of trailing zeros — and an error '
+          'otherwise, never a rounded value; LefImporter::import_point converts x and y independently, each from its own field (scales 0/0; '
+          'thorough 2/3).'),
+    note=('rust_decimal\'s 96-bit limb loops do not finish under CBMC, so `&Decimal * Decimal`, Decimal::trunc, Decimal::fract and Ord::cmp are replaced by '
+          'exact i128 models on (mantissa, scale) (harness/common/decimal_model.rs); l21v-tablegen compares the models with the real crate on '
+          '6.7 million operations inside and beyond the harness bound on every run (it found and fixed one modelling error: a zero operand '
+          'yields the canonical zero). Dropped: RECT/POLYGON/PATH shapes and ITERATE (harnesses c16_x_d3_* time out at 15 min), one abstract '
+          'per macro, pins/obstructions per layer (hash-map backed Layers), path widths.'),
+    design='§4 C16')
+
 NOT_APPLICABLE = {
     'C04': 'no-go after measurement: a CONCRETE 13-token LEF text takes 195 s to parse under Kani (~15 s/token), the lexer on one symbolic 2-byte character does not finish in 20 min, once_cell Lazy statics ICE Kani, f64/Decimal::from_str and char classes each need stubs (DESIGN §5)',
     'C05': 'same code path as C04 plus the writer\'s fmt machinery; no-go (DESIGN §5)',
     'C06': 'every import kernel is gated by std HashMap/HashSet (cell_map, Layers, label buckets, GdsDepOrder); hash containers neither execute under CBMC in 20 min nor can be stubbed (Kani rejects generic-method stubs); the flattening/containment halves are checked under C12/C13',
     'C08': 'Track::cut_or_block / set_net harnesses run out of memory at 10 GB, to_layer_period / ValidMetalLayer harnesses time out at 15 min (Vec edits at computed indices, Ptr<Instance>); harness text kept in harness/incrate/tetris_conv_raw.rs (DESIGN §5)',
     'C11': 'LEF lexer on one symbolic two-byte character does not finish in 20 min; parser per-token cost as C04; no-go (DESIGN §5)',
-    'C16': 'rust_decimal 96-bit limb loops (rescale / unaligned_add / div_by_u32) do not finish: four harnesses incl. a trivial one hit 50-minute timeouts with concrete scale and |mantissa| <= 2^20; the two defects the harness bodies expose were shown by native replay and repaired (DESIGN §5, §6)',
     'C17': 'all six orderers are entirely a DFS over HashSet::{contains,insert,remove}; a 3-node instance did not leave symbolic execution in 20 min even with the hasher stubbed',
     'C18': 'the property lives in serde_json/serde_yaml/yaml-rust/ryu text emitters and parsers (input-length loops, float printing/parsing)',
     'C19': 'after the stack-slot discipline one kernel (assignments/cuts, 50 s) is decided but outlines (heap vector lengths inside import_outline), instances (Ptr<Cell>) and the missing-sub-message selector run out of memory or time out; too thin to register (DESIGN §5)',
@@ -141,7 +152,7 @@ NOT_APPLICABLE = {
 PENDING = {}
 
 # properties whose thorough tier has been run green on this tree (others register the quick command only)
-THOROUGH_OK = {'C15', 'C09', 'C14', 'C12'}  # for these the thorough tier is the same harness set as the quick tier
+THOROUGH_OK = {'C15', 'C09', 'C14', 'C12', 'C07'}  # for these the thorough tier is the same harness set as the quick tier
 
 
 def main():
